@@ -401,6 +401,24 @@ def run_recover(case):
                     except fsparse.Bad:
                         rr.append((rec.oid, b'?'))
                 got[t.tid] = (t, rr)
+            # (c) a transaction the damage lies in is left out (fsrecover
+            # is run without -p: "transactions with any bad data are
+            # skipped") or copied whole (damage it cannot see); it does not
+            # come out with fewer records under its own id as if complete
+            for tid, (t, recs) in orig.items():
+                g = got.get(tid)
+                if g is None or t.status == 'u':
+                    continue
+                if t.pos < dend and t.end > dstart and t.pos + 23 <= dstart \
+                        and g[0].status == t.status \
+                        and len(g[1]) < len(recs):
+                    viol.append(('recover-outputs-partial-transaction',
+                                 '%s: transaction %r is damaged behind its '
+                                 'header; it is output with %d of its %d '
+                                 'records and status %r'
+                                 % (label, tid, len(g[1]), len(recs),
+                                    g[0].status)))
+                    break
             # (a) everything that ends before the damage is present
             for tid, (t, recs) in orig.items():
                 if t.status == 'u':
